@@ -160,12 +160,10 @@ theorem plainValues_roundtrip (c : Writer.Col) (vals : List Writer.Val) (h : Val
 /-- the column reader's view of a writer column (the chunk metadata plays no role in page decoding) -/
 def colOf (c : Writer.Col) (cm : ThriftParquet.ColumnMetaData) : Col := ⟨cm, c.maxDef, c.maxRep, c.ptype.code, c.typeLen⟩
 
-/-- A page as the page builder of a flat REQUIRED / OPTIONAL column holds it when it is finalised
-(the invariants `carquet_page_writer_add_values` maintains), with values of the column's type and
-sizes that fit the C types. -/
+/-- A page as the page builder of a flat REQUIRED / OPTIONAL / REPEATED column holds it when it is
+finalised (the invariants `carquet_page_writer_add_values` maintains), with values of the column's
+type and sizes that fit the C types. -/
 structure PageShape (c : Writer.Col) (p : Writer.Page) : Prop where
-  notRepeated : c.rep ≠ .repeated
-  noReps : p.reps = []
   defsLen : c.maxDef > 0 → p.defs.length = p.numValues ∧ 0 < p.numValues
   defsNone : c.maxDef = 0 → p.defs = []
   defs01 : ∀ d ∈ p.defs, d ≤ 1
@@ -173,21 +171,41 @@ structure PageShape (c : Writer.Col) (p : Writer.Page) : Prop where
   vals : ValsOk c p.values
   levelsSmall : (Rle.encode 1 p.defs).length < 2 ^ 32
   valuesSmall : (pageValuesBytes c p.values).length < 2 ^ 64
+  repsLen : c.maxRep > 0 → p.reps.length = p.numValues ∧ 0 < p.numValues
+  repsNone : c.maxRep = 0 → p.reps = []
+  reps01 : ∀ r ∈ p.reps, r ≤ 1
+  repLevelsSmall : (Rle.encode 1 p.reps).length < 2 ^ 32
 
-theorem pageBody_eq (c : Writer.Col) (p : Writer.Page) (h : PageShape c p) :
+theorem pageBody_eq (c : Writer.Col) (p : Writer.Page) :
     Writer.pageBody (FileReal.deps []) c p =
-      (if p.defs.length > 0 then FileReal.levels c.maxDef p.defs else []) ++ pageValuesBytes c p.values := by
+      (if p.reps.length > 0 then FileReal.levels c.maxRep p.reps else []) ++
+      ((if p.defs.length > 0 then FileReal.levels c.maxDef p.defs else []) ++ pageValuesBytes c p.values) := by
   unfold Writer.pageBody pageValuesBytes
-  simp only [h.noReps, List.length_nil, Nat.lt_irrefl, if_false, List.nil_append, FileReal.deps]
+  simp only [FileReal.deps, List.append_assoc]
+
+theorem maxRep_le_one (c : Writer.Col) : c.maxRep = 0 ∨ c.maxRep = 1 := by
+  unfold Writer.Col.maxRep; split <;> simp
 
 theorem readDataPageV1_pageBody (c : Writer.Col) (p : Writer.Page) (h : PageShape c p) (cm : ThriftParquet.ColumnMetaData)
     (dict : Option Dict) :
     readDataPageV1 Fixes.all (colOf c cm) dict (Writer.pageBody (FileReal.deps []) c p) p.numValues 0 =
-      .ok ⟨if c.maxDef > 0 then p.defs else List.replicate p.numValues 0, List.replicate p.numValues 0, p.values⟩ := by
-  rw [pageBody_eq c p h]
-  have hrep : c.maxRep = 0 := by
-    unfold Writer.Col.maxRep; rw [if_neg h.notRepeated]
+      .ok ⟨if c.maxDef > 0 then p.defs else List.replicate p.numValues 0,
+           if c.maxRep > 0 then p.reps else List.replicate p.numValues 0, p.values⟩ := by
+  rw [pageBody_eq c p]
   have hvals := plainValues_roundtrip c p.values h.vals h.valuesSmall
+  -- the repetition-level stage
+  have hrl : ∀ tail, repLevels Fixes.all (colOf c cm) p.numValues
+      ((if p.reps.length > 0 then FileReal.levels c.maxRep p.reps else []) ++ tail) =
+      .ok (if c.maxRep > 0 then p.reps else List.replicate p.numValues 0, tail) := by
+    intro tail
+    by_cases hr : c.maxRep > 0
+    · have hr1 : c.maxRep = 1 := by rcases maxRep_le_one c with h0 | h1 <;> omega
+      obtain ⟨hlen, hpos⟩ := h.repsLen hr
+      have hlb := levelBlock_roundtrip Fixes.all p.reps tail h.reps01 h.repLevelsSmall
+      rw [hlen] at hlb
+      simp only [repLevels, colOf, hr1, Nat.lt_add_one, if_true, show p.reps.length > 0 by omega, hlb]
+    · have hr0 : c.maxRep = 0 := by omega
+      simp only [repLevels, colOf, hr0, Nat.lt_irrefl, if_false, h.repsNone hr0, List.length_nil, List.nil_append]
   by_cases hd : c.maxDef > 0
   · have hd1 : c.maxDef = 1 := by
       unfold Writer.Col.maxDef at hd ⊢; split <;> simp_all
@@ -196,13 +214,18 @@ theorem readDataPageV1_pageBody (c : Writer.Col) (p : Writer.Page) (h : PageShap
     rw [if_pos hd] at hcount
     have hlb := levelBlock_roundtrip Fixes.all p.defs (pageValuesBytes c p.values) h.defs01 h.levelsSmall
     rw [hlen] at hlb
-    simp only [readDataPageV1, repLevels, defLevels, colOf, hrep, Nat.lt_irrefl, if_false, hd1, Nat.lt_add_one,
+    unfold readDataPageV1
+    rw [hrl]
+    simp only [defLevels, colOf, hd1, Nat.lt_add_one,
       if_true, show p.defs.length > 0 by omega, hlb, nonNullCount, ← hcount, decodeValues, hvals]
   · have hd0 : c.maxDef = 0 := by omega
     have hdn := h.defsNone hd0
     have hcount := h.count
     rw [if_neg hd] at hcount
-    simp only [readDataPageV1, repLevels, defLevels, colOf, hrep, hd0, Nat.lt_irrefl, if_false, hdn, List.length_nil,
-      List.nil_append, nonNullCount, List.length_replicate, ← hcount, decodeValues, if_true, hvals]
+    unfold readDataPageV1
+    rw [hrl]
+    simp only [defLevels, colOf, hd0, Nat.lt_irrefl, if_false, hdn, List.length_nil,
+      List.nil_append, nonNullCount, List.length_replicate, decodeValues, if_true]
+    rw [← hcount, hvals]
 
 end Carquet.Proofs.ReaderPageRoundtrip
